@@ -622,4 +622,3 @@ func TestC46(t *testing.T) {
 		}
 	})
 }
-
